@@ -9,6 +9,7 @@ import ast
 import builtins as _builtins
 import dataclasses
 import inspect
+import os
 import sys
 import types
 import z3
@@ -18,6 +19,7 @@ from .ops import *
 from . import ops
 from .sources import SOURCES
 from .chars import VChars, to_vstr, chars_eq, as_chars
+from .segs import VSegs, to_vbytes, segs_of, segs_eq, from_segs, total_len
 
 sys.setrecursionlimit(20000)
 
@@ -181,6 +183,12 @@ class Interp:
             yield st, VBool(len(v.v) > 0) if v.concrete else mk_bool(z3.Length(v.v) > 0)
         elif v is VNone:
             yield st, VBool(False)
+        elif isinstance(v, VSegs):
+            n = total_len(v.segs)
+            if any(x[0] == 'lit' for x in v.segs) or any(isinstance(x[2], int) and x[2] > 0 for x in v.segs if x[0] != 'lit'):
+                yield st, VBool(True)
+            else:
+                yield st, (VBool(n > 0) if isinstance(n, int) else mk_bool(n > 0))
         elif isinstance(v, VChars):
             yield st, VBool(len(v.codes) > 0)
         elif isinstance(v, VTuple):
@@ -384,6 +392,11 @@ class Interp:
     def call_ast(self, st, fnode, globs, outer, defaults, kwdefaults, qualname, filename, args, kwargs):
         fnode._filename = getattr(fnode, '_filename', filename)
         SOURCES.note_used(fnode)
+        if os.environ.get('VERIF_DEBUG'):
+            self.stats['calls'] = self.stats.get('calls', 0) + 1
+            if self.stats['calls'] % 500 == 0:
+                print(f"DEBUG call #{self.stats['calls']} {qualname} depth={st.depth} pc={len(st.pc)} forks={self.stats['forks']}",
+                      file=sys.stderr, flush=True)
         loc = self.bind_args(fnode, defaults, kwdefaults, args, kwargs, qualname)
         if isinstance(loc, Raise):
             yield st, loc
@@ -928,10 +941,19 @@ class Interp:
             return
         yield from self._while_unroll(node, st, fr, 0)
 
-    def _while_unroll(self, node, st, fr, n):
-        if n > self.unroll_limit:
-            raise Unsupported(f"while loop at {fr.qualname}:{node.lineno} needs an invariant (unrolled {n} times)", node)
+    def _while_unroll(self, node, st, fr, n, nsym=0):
+        if n > 5000 or nsym > self.sym_unroll_limit:
+            raise Unsupported(f"while loop at {fr.qualname}:{node.lineno} needs an invariant "
+                              f"(unrolled {n} times, {nsym} with a symbolic condition)", node)
+        npc = len(st.pc)
+        if n in (4, 8) and os.environ.get('VERIF_DEBUG'):
+            print(f"DEBUG while loop {fr.qualname}:{node.lineno} iteration {n}", {k: v for k, v in st.frames[fr.id].items()},
+                  file=sys.stderr, flush=True)
         for s1, b in self.ev_cond(node.test, st, fr):
+            if len(s1.pc) != npc:
+                nsym_here = nsym + 1
+            else:
+                nsym_here = nsym
             if isinstance(b, Raise):
                 yield s1, Ctl('raise', b.exc)
             elif not b:
@@ -939,13 +961,14 @@ class Interp:
             else:
                 for s2, ctl in self.exec_block(node.body, s1, fr):
                     if ctl is None or ctl.kind == 'continue':
-                        yield from self._while_unroll(node, s2, fr, n + 1)
+                        yield from self._while_unroll(node, s2, fr, n + 1, nsym_here)
                     elif ctl.kind == 'break':
                         yield s2, None
                     else:
                         yield s2, ctl
 
     unroll_limit = 64
+    sym_unroll_limit = 6
 
     def x_For(self, node, st, fr):
         for s1, it in self.ev(node.iter, st, fr):
@@ -1023,6 +1046,8 @@ class Interp:
                         yield from self.iter_concrete(s1, r, node)
             else:
                 raise Unsupported(f"iteration over {h}", node)
+        elif isinstance(v, VSegs):
+            yield from self.iter_concrete(st, to_vbytes(v), node, live)
         elif isinstance(v, VChars):
             yield st, [(VInt(c) if v.is_bytes else VChars([c], False)) for c in v.codes]
         elif isinstance(v, (VStr, VBytes)):
@@ -1649,6 +1674,13 @@ class Interp:
         if isinstance(a, VRef) or isinstance(b, VRef):
             yield from self.bm.ref_binop(self, st, op, a, b, node)
             return
+        if isinstance(a, VSegs) or isinstance(b, VSegs):
+            sa, sb = segs_of(a), segs_of(b)
+            if isinstance(op, ast.Add) and sa is not None and sb is not None:
+                yield st, from_segs(sa + sb)
+                return
+            a = to_vbytes(a) if isinstance(a, VSegs) else a
+            b = to_vbytes(b) if isinstance(b, VSegs) else b
         if isinstance(a, VChars) or isinstance(b, VChars):
             ca, cb = as_chars(a), as_chars(b)
             if isinstance(op, ast.Add) and ca is not None and cb is not None and ca.is_bytes == cb.is_bytes:
@@ -1724,8 +1756,8 @@ class Interp:
                 return
         if isinstance(a, VRef) or isinstance(b, VRef):
             raise Unsupported("ordering on heap objects", node)
-        a = to_vstr(a) if isinstance(a, VChars) else a
-        b = to_vstr(b) if isinstance(b, VChars) else b
+        a = to_vstr(a) if isinstance(a, VChars) else (to_vbytes(a) if isinstance(a, VSegs) else a)
+        b = to_vstr(b) if isinstance(b, VChars) else (to_vbytes(b) if isinstance(b, VSegs) else b)
         r = order_term(op, a, b)
         if isinstance(r, Raise):
             yield st, r
@@ -1754,6 +1786,13 @@ class Interp:
         if isinstance(a, VRef) or isinstance(b, VRef):
             yield from self.bm.ref_equals(self, st, a, b, node)
             return
+        if isinstance(a, VSegs) or isinstance(b, VSegs):
+            r = segs_eq(a, b)
+            if r is not None:
+                yield st, (VBool(r) if isinstance(r, bool) else mk_bool(r))
+                return
+            a = to_vbytes(a) if isinstance(a, VSegs) else a
+            b = to_vbytes(b) if isinstance(b, VSegs) else b
         if isinstance(a, VChars) or isinstance(b, VChars):
             r = chars_eq(a, b)
             if r is not None:
@@ -1786,6 +1825,9 @@ class Interp:
                     yield st, st.alloc(HDict(dict(h.fields)))
                     return
                 d = self.class_attr(h.cls, name)
+                if d is None and any(name in k.__dict__ for k in h.cls.__mro__ if k is not object):
+                    yield st, VNone         # class attribute whose value is None
+                    return
                 if d is None:
                     ga = self.class_attr(h.cls, '__getattr__')
                     if ga is not None:
@@ -1808,6 +1850,12 @@ class Interp:
                 yield st, exc(AttributeError, f"'{pyt.__name__}' object has no attribute '{name}'")
                 return
             yield st, VBuiltinMethod(o, name)
+            return
+        if isinstance(o, VSegs):
+            if not hasattr(bytes, name):
+                yield st, exc(AttributeError, f"'bytes' object has no attribute '{name}'")
+            else:
+                yield st, VBuiltinMethod(o, name)
             return
         if isinstance(o, VChars):
             if not hasattr(bytes if o.is_bytes else str, name):
